@@ -123,6 +123,16 @@ func customC15(r *Run) ([]Crash, error) {
 				dir := filepath.Join(r.Work, rn)
 				os.MkdirAll(dir, 0o755)
 				file := filepath.Join(filesDir, s.Name, "f0.parquet")
+				if big := filepath.Join(filesDir, s.Name, "f3.parquet"); fileExists(big) {
+					// the many-row-group file (footer > 64 KiB) of this shape
+					file = big
+					bigMu.Lock()
+					r.M.Counters["structs_regenerated_from_files_with_large_footers"]++
+					if st, err := os.Stat(big); err == nil && st.Size() > r.M.Maxes["largest_file_regenerated_from_bytes"] {
+						r.M.Maxes["largest_file_regenerated_from_bytes"] = st.Size()
+					}
+					bigMu.Unlock()
+				}
 				c := exec.Command("timeout", "-s", "KILL", "60", pgen, "-parquet", file, "-type", "T", "-package", rn, "-struct-output", "types.go", "-output", "parquet.go")
 				c.Dir = dir
 				c.Env = r.Env
@@ -188,4 +198,11 @@ func customC15(r *Run) ([]Crash, error) {
 		r.M.Samples = append([]interface{}{map[string]interface{}{"shape": srcs[len(srcs)/2].Sig, "source": srcs[len(srcs)/2].Code}}, r.M.Samples...)
 	}
 	return crashes, nil
+}
+
+var bigMu sync.Mutex
+
+func fileExists(p string) bool {
+	_, err := os.Stat(p)
+	return err == nil
 }
